@@ -219,6 +219,16 @@ func runUpdate(o *Out, spec *Spec, r *Ref, m *MethodSpec) {
 				keep("unexported field under ignoreUnexported")
 				continue
 			}
+			if fs.NoSource && fs.Func != "" {
+				// computed by a function without source: assigned on every call
+				want, err := r.callFunc(r.Funcs[fs.Func], r.Callables[fs.Func], reflect.Value{}, tf.Type, nil)
+				if err == nil {
+					if ok, p := Equal(af, want); !ok {
+						mismatch("update_value", tf.Name, "field computed by a source-less function differs at "+p, want)
+					}
+				}
+				continue
+			}
 			var sv reflect.Value
 			if len(fs.Path) > 0 {
 				v, _, err := walkPath(sbase, fs.Path)
